@@ -249,3 +249,83 @@ func (w *World) globalInit(gl *ssa.Global) ssa.Value {
 	w.ginit[gl] = val
 	return val
 }
+
+// preRegister declares every heap component that any function of the given packages can
+// touch, before any obligation is generated.  Modifies clauses (wildcards and exact names)
+// are expanded against the set of known components; a component first touched after a call
+// would otherwise escape that call's havoc.
+func (w *World) preRegister(pkgDirs []string) {
+	w.ensureAll()
+	want := map[string]bool{}
+	for _, d := range pkgDirs {
+		if d == "." {
+			want[modulePath] = true
+		} else {
+			want[modulePath+"/"+d] = true
+		}
+	}
+	var fns []*ssa.Function
+	for fn := range w.allFns {
+		if fn.Pkg != nil && want[fn.Pkg.Pkg.Path()] && fn.Synthetic == "" {
+			fns = append(fns, fn)
+		}
+	}
+	sort.Slice(fns, func(i, j int) bool { return fns[i].String() < fns[j].String() })
+	for _, fn := range fns {
+		g := &Gen{m: w.m, prog: w.prog, fn: fn, world: w, noDecl: map[string]bool{}}
+		func() {
+			defer func() { recover() }() // types outside the modelled subset: nothing to register
+			tmp := map[string]bool{}
+			locals := map[*ssa.Alloc]bool{}
+			for _, b := range fn.Blocks {
+				for _, in := range b.Instrs {
+					func() {
+						defer func() { recover() }()
+						switch x := in.(type) {
+						case *ssa.FieldAddr:
+							g.addrComps(x, tmp, locals)
+						case *ssa.IndexAddr:
+							g.addrComps(x, tmp, locals)
+						case *ssa.Alloc:
+							if x.Heap || isArrayAlloc(x) {
+								g.allocComps(x, tmp)
+							}
+						case *ssa.MakeSlice:
+							if sl, ok := x.Type().Underlying().(*types.Slice); ok {
+								w.m.compSliceHeap(w.m.sortOf(sl.Elem()))
+							}
+						case *ssa.MakeMap:
+							regMap(w.m, x.Type())
+						case *ssa.MapUpdate:
+							regMap(w.m, x.Map.Type())
+						case *ssa.Lookup:
+							if _, ok := x.X.Type().Underlying().(*types.Map); ok {
+								regMap(w.m, x.X.Type())
+							}
+						case *ssa.UnOp:
+							if gl, ok := x.X.(*ssa.Global); ok {
+								w.m.compGlobal(gl)
+							}
+						case *ssa.Store:
+							if gl, ok := x.Addr.(*ssa.Global); ok {
+								w.m.compGlobal(gl)
+							}
+						}
+					}()
+				}
+			}
+		}()
+	}
+}
+
+func regMap(m *Mod, t types.Type) {
+	mt, ok := t.Underlying().(*types.Map)
+	if !ok {
+		return
+	}
+	ks, vs := m.sortOf(mt.Key()), m.sortOf(mt.Elem())
+	if ks == "Str" {
+		ks = "Int"
+	}
+	m.compMap(ks, vs)
+}
